@@ -72,7 +72,12 @@ def writer_script(cfg, content_file="in.dat", out_file="out.zck", seg=None):
     L = []
     if cfg.get("closefd0"):
         L.append("closefd 0")
-    L.append("fopen 0 %s w output" % out_file)
+    if cfg.get("preamble"):
+        # the caller's own bytes precede the image: the file exists already and the descriptor is handed over behind them
+        # (positioned there, or opened O_APPEND)
+        L.append("fopen 0 %s %s output %d" % (out_file, "wa" if cfg.get("append") else "wo", cfg["preamble"]))
+    else:
+        L.append("fopen 0 %s w output" % out_file)
     L.append("create 0")
     L.append("init_write 0 0")
     if cfg.get("comp") is not None:
